@@ -5,17 +5,26 @@ from core import Case, canon, hx, REPO
 import c01
 
 PROP = "C05"
-LEAN_MODULES = ["DrxProps.C05"]
+LEAN_MODULES = ["DrxProps.C05", "DrxProps.C05Real"]
 FAMILIES = ["dir"]
 RULE = ("synthesised movies: cast slots (empty or a member with its CASt record and 0..n linked resources), resource ids = shuffled "
         "file order, key-table entries shuffled with ignored noise entries, Lctx/Lscr with base and continuation scripts, optional "
         "Lnam/VWLB/VWSC/Fmap chunks present or absent, both byte orders, optional executable prefix. Two modes: 'stub' replaces every "
         "sub-decoder (identically in the Lean driver) by a function returning a token of its inputs, so the assembly logic itself is "
-        "compared model-vs-implementation and against a declarative Python assembler; 'real' recombines member bundles harvested from "
-        "the repo's own .DIR fixtures and compares parse_dir_file_data with the declarative assembler running the real individual "
-        "decoders. distinct_nontrivial = distinct movies whose assembly returned a result with at least one non-empty cast entry.")
+        "compared model-vs-implementation and against a declarative Python assembler; 'real' builds whole movies from member bundles "
+        "harvested from the repo's own .DIR fixtures and from the other families' generators (c15 records of every kind, bitmaps of depth "
+        "1/8/16/32 with system and custom palettes, c16 texts and font maps, c07 sounds, c17 marker/name/configuration chunks, c08 score "
+        "files, decompiler fixtures / game scripts / random programs as base and continuation scripts, DRX_ENCODING drawn per movie) and "
+        "compares the REAL parse_dir_file_data (a) with the composed Lean models of ALL decoders (driver line `dir real`, "
+        "lean/Drx/DirReal.lean) and (b) with the declarative assembler running the real individual decoders; the repo's own 44 movies "
+        "(tests/files/cast/**.DIR, tests/files/riff) run whole through (a). "
+        "distinct_nontrivial = distinct movies whose assembly returned a result with at least one non-empty cast entry.")
 TRUSTED = ["harness/c05.py movie encoder and declarative assembler (Python)", "stub decoders are the same functions on both sides by construction (reviewed, not proved)",
-           "sampled correspondence", "key/cas/lctx models are those of C17 (lean/Drx/Idx.lean)"]
+           "sampled correspondence", "key/cas/lctx models are those of C17 (lean/Drx/Idx.lean)",
+           "real mode: adapters of lean/Drx/DirReal.lean between the family models and Dir.Decoders (hand-written, exercised by the comparison); "
+           "canonical form real_jsonable (bytes as hex, SampledSound by its fields)",
+           "bitmaps above the tier's pixel cap and bitmap records with negative width/height/horizontal padding are not compared with the Lean "
+           "bitmap model (counted in input_kinds real-big / outside_bitmap_model)"]
 ASSUMPTIONS = ["members carry links of kinds compatible with their type in the D stream (arbitrary combinations only in the model-vs-implementation stream)"]
 
 # ---------------------------------------------------------------------------------------------- stubs (mirrored in lean/Drx/Drv/Dir.lean)
@@ -123,6 +132,29 @@ def to_jsonable(x):
 def result_json(df):
     return dict(info=to_jsonable(df.info), cast=to_jsonable(df.cast), lingoScr=to_jsonable(df.lingoScr), jsScr=to_jsonable(df.jsScr),
                 markers=to_jsonable(df.markers), score=to_jsonable(df.score), fontmap=to_jsonable(df.fontmap))
+
+
+def real_jsonable(x):
+    """canonical form of a value of the REAL result, field by field the rendering of lean/Drx/DirReal.lean: every family's own
+    observable (c17 `dict(info)`/markers, c16 font map/text formats, c15 the member record as it is, c09 the score dict as it is,
+    c07 `_sampled_obs` for a SampledSound, c12 the two texts), `bytes` (palette, bitmap) as {"__bytes__": hex}. Anything else
+    (a float, an unknown object) is a harness fault, not silently stringified."""
+    if isinstance(x, (bytes, bytearray)):
+        return {"__bytes__": bytes(x).hex()}
+    if isinstance(x, dict):
+        return {str(k): real_jsonable(v) for k, v in x.items()}
+    if isinstance(x, (list, tuple)):
+        return [real_jsonable(v) for v in x]
+    if isinstance(x, (str, int, bool)) or x is None:
+        return x
+    if type(x).__name__ == "SampledSound":
+        return dict(ch=x.num_channels, bits=x.bits_per_sample, rate=x.sample_rate, samples=bytes(x.samples).hex())   # = c07._sampled_obs
+    raise TypeError("no canonical form for " + type(x).__name__)
+
+
+def real_result_json(df):
+    return dict(info=real_jsonable(df.info), cast=real_jsonable(df.cast), lingoScr=real_jsonable(df.lingoScr), jsScr=real_jsonable(df.jsScr),
+                markers=real_jsonable(df.markers), score=real_jsonable(df.score), fontmap=real_jsonable(df.fontmap))
 
 
 # ---------------------------------------------------------------------------------------------- encoder
@@ -384,24 +416,34 @@ def gen_bitmap_member(rng, depth, pal_id):
 
 
 _GEN_POOL = None
+REAL_CODECS = ["default"] * 14 + ["mac_roman"] * 3 + ["latin_1"] * 3 + ["cp1252"] * 2 + ["utf_8", "ascii"]
+# A bitmap with more pixels than this is not sent to the Lean driver in that tier: the list-based bitmap model (lean/Drx/Bitd.lean) paints
+# one pixel per list update, i.e. quadratic time (10 000 px ~ 1 s, 120 000 px ~ 2.5 min; porteus.DIR 855x708 would take about an hour).
+# The declarative-assembler oracle still checks those movies.
+LEAN_PIXEL_CAP = dict(quick=40_000, thorough=60_000, search=22_000)          # recombined movies (many per run)
+FIXTURE_PIXEL_CAP = dict(quick=60_000, thorough=200_000, search=22_000)      # the repo's own movies (each once per run)
+
+
+def _hexes0(case):
+    h = case.spec["hexes"][0]
+    return b"" if h in (None, "-") else bytes.fromhex(h)
 
 
 def generated_pool():
-    """chunks produced by the other families' generators: STXT texts, snd resources"""
+    """chunks produced by the OTHER families' generators (their spec objects encoded by their own encoders): STXT texts and font maps
+    (c16), snd resources (c07), marker tables, name tables and movie configurations (c17), score files (c08), scripts (lscr_common:
+    the 70 decompiler fixtures grouped by name table, the game scripts, random well-formed programs)"""
     global _GEN_POOL
     if _GEN_POOL is None:
         import random
-        pool = dict(stxt=[], snd=[])
+        pool = dict(stxt=[], snd=[], fmap=[], vwlb=[], vwcf=[], vwsc=[], script_groups=[])
         try:
             import c16
-            for c in c16.cases(random.Random(11), "quick"):
-                for l in c.lines:
-                    t = l.split()
-                    if t[:2] == ["text", "stxt"] and len(t) > 4 and t[2] == "mac_roman" and len(pool["stxt"]) < 60:
-                        try:
-                            pool["stxt"].append(bytes.fromhex(t[4]))
-                        except ValueError:
-                            pass
+            r = random.Random(11)
+            for _ in range(60):
+                pool["stxt"].append(_hexes0(c16.stxt_case(r, codec="mac_roman", nruns=r.choice([0, 1, 2, 3, 8]), text=c16.rtext(r, 120))))
+            for _ in range(30):
+                pool["fmap"].append(_hexes0(c16.fmap_case(r, codec="mac_roman", fonts=c16.rfonts(r, r.choice([0, 1, 2, 3, 6])))))
         except Exception:
             pass
         try:
@@ -411,8 +453,56 @@ def generated_pool():
                 pool["snd"].append(c07.encode(c07.rand_spec(r)))
         except Exception:
             pass
+        try:
+            import c17
+            r = random.Random(13)
+            for _ in range(30):
+                n = r.choice([0, 1, 2, 3, 7])
+                pool["vwlb"].append(_hexes0(c17.vwlb_case(r, codec="mac_roman", markers=[(c17.r16(r), c17.rname(r, 20)) for _ in range(n)])))
+            for _ in range(30):
+                pool["vwcf"].append(bytes.fromhex(c17.vwcf_case(r).spec["hexes"][0]))
+        except Exception:
+            pass
+        try:
+            import c08
+            r = random.Random(14)
+            for _ in range(24):
+                c = c08.score_case(r, cc=r.choice([3, 4, 6]), nframes=r.choice([1, 2, 3, 5]), strategies=[r.choice(["full", "min", "mixed", "random"])], with_ser=False)
+                pool["vwsc"].append(bytes.fromhex(c.lines[0].split()[2]))
+        except Exception:
+            pass
+        try:
+            import lscr_common as L
+            groups = {}
+            for stem, lscr, lnam, _, _ in L.fixture_bytes():
+                groups.setdefault(lnam, []).append(lscr)
+            for label, lscr, lnam in L.game_scripts():
+                groups.setdefault(lnam, []).append(lscr)
+            pool["script_groups"] = [(ln, ls) for ln, ls in groups.items()]
+            r = random.Random(15)
+            for _ in range(60):
+                lscr, lnam, _ = L.rand_script(r)
+                pool["script_groups"].append((lnam, [lscr]))
+        except Exception:
+            pass
         _GEN_POOL = pool
     return _GEN_POOL
+
+
+def gen_odd_bitmap_member(rng):
+    """a bitmap record with small but arbitrary numbers (zero/negative sizes, padding beyond the image, any depth code) and a BITD
+    chunk of arbitrary bytes: the malformed side of the bitmap branch"""
+    import c15
+    sp = c15.rand_member(rng, "bitmap")
+    f = list(sp["fields"])
+    small = lambda: rng.choice([0, 1, 2, 3, 5, 8, 17, rng.randrange(0, 24), rng.choice([-1, -2, 0, 40])])
+    f[3], f[4], f[5], f[6] = rng.choice([0, 0, 1, 2, -1, small()]), rng.choice([0, 0, 1, 2, -1, small()]), small(), small()
+    f[1] = rng.choice([0x00, 0x80, 0x81, 0x82, 0x84, 0x85, 0x8A, 7])
+    sp["fields"] = f
+    if sp["tail"] is not None:
+        sp["tail"] = [rng.choice([0, 1, 4, 8, 8, 16, 24, 32, 2, -1]), sp["tail"][1]]
+    rec = c15.enc_d4(sp) if rng.random() < 0.6 else c15.enc_d5(sp)
+    return rec, rb(rng, 0, 40)
 
 
 def gen_generated_members(rng, n):
@@ -425,7 +515,7 @@ def gen_generated_members(rng, n):
         r = rng.random()
         if r < 0.12:
             members.append(None); continue
-        kind = rng.choice(["bitmap", "bitmap", "bitmap", "field", "sound", "palette", "button", "shape", "script", "richText", "transition"])
+        kind = rng.choice(["bitmap", "bitmap", "bitmap", "field", "sound", "palette", "button", "shape", "script", "richText", "transition", "oddbitmap"])
         try:
             if kind == "bitmap":
                 depth = rng.choice([1, 8, 8, 16, 32])
@@ -433,6 +523,9 @@ def gen_generated_members(rng, n):
                 rec, bitd = gen_bitmap_member(rng, depth, pal if depth == 8 else rng.choice([0, -1, 5]))
                 links = [("BITD", bitd)] + ([("THUM", rb(rng))] if rng.random() < 0.2 else [])
                 members.append(dict(cast=rec, links=links)); continue
+            if kind == "oddbitmap":
+                rec, bitd = gen_odd_bitmap_member(rng)
+                members.append(dict(cast=rec, links=[("BITD", bitd)])); continue
             sp = c15.rand_member(rng, kind if kind in c15.KINDS else None)
             rec = c15.enc_d4(sp) if rng.random() < 0.5 else c15.enc_d5(sp)
             links = []
@@ -442,7 +535,7 @@ def gen_generated_members(rng, n):
             elif k == "sound" and gp["snd"] and rng.random() < 0.8:
                 links = [("snd ", rng.choice(gp["snd"]))]
             elif k == "palette":
-                links = [("CLUT", bytes(rng.randrange(256) for _ in range(6 * 256)))]; pal_slots.append(i)
+                links = [("CLUT", bytes(rng.randrange(256) for _ in range(6 * rng.choice([256, 256, 256, 256, 256, 300, 255]))))]; pal_slots.append(i)
             elif k == "bitmap":
                 links = []
             members.append(dict(cast=rec, links=links))
@@ -451,8 +544,45 @@ def gen_generated_members(rng, n):
     return members
 
 
+def patch_script_numbers(lscr, scr_num, cont):
+    """the script number / continuation number words of an Lscr header (offsets 18 and 22, big-endian signed 16 bit)"""
+    if len(lscr) < 24:
+        return lscr
+    return lscr[:18] + struct.pack(">h", scr_num) + lscr[20:22] + struct.pack(">h", cont) + lscr[24:]
+
+
+def gen_script_set(rng):
+    """(lnam chunk or None, scripts list with None = empty Lctx slot): 0..4 scripts decoded under ONE name table; base scripts get
+    DISTINCT numbers, continuation scripts name an EARLIER base (the D stream's assumptions, as in stub mode: F29 and a base
+    that restarts a number after a continuation are left to the stub-mode model-vs-implementation stream)"""
+    gp = generated_pool()
+    if not gp["script_groups"]:
+        return None, None
+    lnam, pool = rng.choice(gp["script_groups"])
+    k = rng.choice([0, 1, 1, 2, 3, 4])
+    nums = rng.sample([1, 2, 3, 7, 300, 0, 32767] + list(range(10, 40)), k)
+    scripts, bases = [], []
+    for j in range(k):
+        s = rng.choice(pool)
+        if rng.random() < 0.08:
+            s = rng.choice(rng.choice(gp["script_groups"])[1])      # a script compiled against ANOTHER name table
+        if bases and rng.random() < 0.35:
+            s = patch_script_numbers(s, rng.randrange(100, 130), rng.choice(bases))
+        else:
+            s = patch_script_numbers(s, nums[j], -1)
+            if len(s) >= 24:
+                bases.append(nums[j])
+        scripts.append(s)
+        if rng.random() < 0.25:
+            scripts.append(None)
+    if rng.random() < 0.04:
+        lnam = None
+    return lnam, scripts
+
+
 def gen_real_movie(rng):
     pool = harvest()
+    gp = generated_pool()
     order = rng.choice("<>")
     prefix = rb(rng, 1, 40) if rng.random() < 0.3 else b""
     n = rng.choice([1, 2, 3, rng.randrange(1, 9)])
@@ -466,29 +596,85 @@ def gen_real_movie(rng):
             else:
                 b = rng.choice(pool["members"])
                 members.append(dict(cast=b["cast"], links=list(b["links"])))
-    m = dict(order=order, prefix=prefix, members=members, vwcf=rng.choice(pool["vwcf"]), key_noise=rng.randrange(0, 3), scripts=None, layout_seed=rng.randrange(1 << 30),
-             fmap=rng.choice(pool["fmap"]) if pool["fmap"] and rng.random() < 0.7 else None,
-             vwlb=rng.choice(pool["vwlb"]) if pool["vwlb"] and rng.random() < 0.5 else None,
-             vwsc=rng.choice(pool["vwsc"]) if pool["vwsc"] and rng.random() < 0.5 else None, lnam=None)
+    pick = lambda fix, gen, p: (rng.choice((fix if (fix and (not gen or rng.random() < 0.5)) else gen)) if (fix or gen) and rng.random() < p else None)
+    m = dict(order=order, prefix=prefix, members=members, vwcf=pick(pool["vwcf"], gp["vwcf"], 1.1), key_noise=rng.randrange(0, 3),
+             key_slack=rng.randrange(0, 2), lctx_gap=rng.choice([0, 0, 2, 6]), layout_seed=rng.randrange(1 << 30),
+             fmap=pick(pool["fmap"], gp["fmap"], 0.7), vwlb=pick(pool["vwlb"], gp["vwlb"], 0.5), vwsc=pick(pool["vwsc"], gp["vwsc"], 0.5),
+             lnam=None, scripts=None, codec=rng.choice(REAL_CODECS))
+    if rng.random() < 0.6:
+        m["lnam"], m["scripts"] = gen_script_set(rng)
+    m["decoys"] = [("decoy", rng.choice([b"CASt", b"STXT", b"BITD", b"Lscr", b"VWSC", b"Fmap", b"junk", b"free"]), rb(rng)) for _ in range(rng.randrange(0, 3))]
     return m
 
 
-def real_case(rng):
+def _max_pixels(m):
+    """largest width*height among the bitmap members that have a BITD chunk (read off the record by the real record parser: only decides
+    whether the movie is also sent to the Lean driver)"""
+    from drxtract.cast.cast import parse_cast_file_data
+    best = 0
+    for s in m["members"]:
+        if s is not None and any(cc == "BITD" for cc, _ in s["links"]):
+            try:
+                cd = parse_cast_file_data(s["cast"])
+                best = max(best, abs(int(cd.get("width", 0))) * (abs(int(cd.get("height", 0))) + abs(int(cd.get("h_padding", 0)))))
+            except Exception:
+                pass
+    return best
+
+
+def real_case(rng, tier="quick"):
     m = gen_real_movie(rng)
     data = encode_movie(m)
     P = len(m["prefix"])
-    spec = dict(mode="real", order=m["order"], prefix_len=P, nslots=len(m["members"]), sha=hashlib.sha1(data).hexdigest()[:12],
-                movie=json.loads(canon(to_jsonable(m))))
-    return Case(kind="real", spec=spec, lines=[f"#dir real {m['order']} {P} {hx(data)}"], expect=[None])
+    big = _max_pixels(m) > LEAN_PIXEL_CAP[tier]
+    spec = dict(mode="real", order=m["order"], prefix_len=P, nslots=len(m["members"]), nscripts=len(m["scripts"] or []), codec=m["codec"],
+                sha=hashlib.sha1(data).hexdigest()[:12], movie=json.loads(canon(to_jsonable(m))))
+    return Case(kind="real-big" if big else "real", spec=spec, lines=[("#" if big else "") + f"dir real {m['codec']} {m['order']} {P} {hx(data)}"], expect=[None])
+
+
+def fixture_cases(tier):
+    """the repo's own movies, whole: tests/files/cast/**/*.DIR and the movies/projector under tests/files/riff (RIFX located the way
+    riffxtract does). Model-vs-implementation only (there is no spec object for them); read from $DRX_REPO at run time. Two lines per
+    movie: the whole result, and the result part by part with members outside the bitmap model's domain masked (see real_parts_impl).
+    A movie with a bitmap above the tier's pixel cap is not sent to the Lean driver in that tier."""
+    out = []
+    try:
+        from drxtract.riff.riff import find_riff_in_exe
+    except Exception:
+        return out
+    files = sorted((REPO / "tests" / "files" / "cast").rglob("*.DIR")) + sorted(p for p in (REPO / "tests" / "files" / "riff").rglob("*") if p.suffix.lower() in (".dir", ".exe", ".dxr"))
+    for p in files:
+        try:
+            data = p.read_bytes()
+            off = find_riff_in_exe(data) if p.suffix.lower() == ".exe" else 0
+            order = "<" if data[off:off + 4] == b"XFIR" else ">"
+            _, outside, px = _run_real("default", order, off, data)
+        except Exception:
+            continue
+        slow = px > FIXTURE_PIXEL_CAP[tier]
+        spec = dict(mode="fixture", file=str(p.relative_to(REPO)), order=order, prefix_len=off, codec="default", max_pixels=px,
+                    outside_bitmap_model=len(outside), sha=hashlib.sha1(data).hexdigest()[:12])
+        pre = "#" if slow else ""
+        lines = [pre + f"dir realparts default {order} {off} {hx(data)}"]
+        if not outside:
+            lines.insert(0, pre + f"dir real default {order} {off} {hx(data)}")
+        out.append(Case(kind="repo-fixture-big" if slow else "repo-fixture", spec=spec, lines=lines, expect=[None] * len(lines)))
+    return out
 
 
 def cases(rng, tier):
-    n = dict(quick=(500, 60, 150, 150), thorough=(12000, 600, 3000, 2500), search=(6000, 300, 1500, 1500))[tier]
+    n = dict(quick=(500, 60, 150, 250), thorough=(12000, 600, 3000, 2500), search=(6000, 300, 1500, 1500))[tier]
     out = [stub_case(rng, "valid") for _ in range(n[0])]
     for fl in ("f28", "f29", "f02"):
         out += [stub_case(rng, fl) for _ in range(n[1] // 3)]
     out += [stub_case(rng, "wild") for _ in range(n[2])]
-    out += [real_case(rng) for _ in range(n[3])]
+    out += [real_case(rng, tier) for _ in range(n[3])]
+    # the repo's own movies, spread over the list (the driver splits the lines into contiguous parts, one process each: the few slow
+    # ones — large bitmaps — should not queue up behind each other)
+    fx = fixture_cases(tier)
+    step = max(1, len(out) // (len(fx) + 1))
+    for k, c in enumerate(fx):
+        out.insert(min(len(out), (k + 1) * step + k), c)
     return out
 
 
@@ -512,9 +698,84 @@ def _spec_movie(case):
     return m
 
 
+def _setenc(codec):
+    if codec == "default":
+        os.environ.pop("DRX_ENCODING", None)
+    else:
+        os.environ["DRX_ENCODING"] = codec
+
+
+def _run_real(codec, order, P, data):
+    """the REAL parse_dir_file_data under DRX_ENCODING=codec -> (DirectorFile or None when it raised, ids of the member dicts whose
+    bitmap record leaves the domain of the bitmap MODEL, largest pixel count handed to bitd2bmp). bitd2bmp is wrapped by an
+    observer and otherwise called unchanged. Outside the model's domain = negative width / height / horizontal padding with a depth
+    that has a decoder (lean/Drx/Bitd.lean `Call` has natural-number fields; Drx/DirReal.lean `bitdInDomain`)."""
+    import drxtract.dir.dir as dd
+    from drxtract.bitd.bitd2bmp import DECODERS
+    real_bitd = dd.bitd2bmp
+    outside, px = set(), [0]
+
+    def spy(castData, clutData, fdata):
+        try:
+            if castData["depth"] in DECODERS:
+                if castData["width"] < 0 or castData["height"] < 0 or castData["w_padding"] < 0:
+                    outside.add(id(castData))
+                px[0] = max(px[0], abs(castData["width"]) * (abs(castData["height"]) + abs(castData["h_padding"])))
+        except Exception:
+            pass
+        return real_bitd(castData, clutData, fdata)
+
+    old = os.environ.get("DRX_ENCODING")
+    _setenc(codec)
+    dd.bitd2bmp = spy
+    try:
+        try:
+            df = dd.parse_dir_file_data(order, P, data)
+        except Exception as e:
+            df = None
+    finally:
+        dd.bitd2bmp = real_bitd
+        if old is None:
+            os.environ.pop("DRX_ENCODING", None)
+        else:
+            os.environ["DRX_ENCODING"] = old
+    return df, outside, px[0]
+
+
+def real_impl(codec, order, P, data):
+    """line `dir real`: the whole result, canonicalised like lean/Drx/DirReal.lean renders the model's result; None (= not comparable)
+    when some bitmap record is outside the bitmap model's domain"""
+    df, outside, _ = _run_real(codec, order, P, data)
+    if outside:
+        return None
+    try:
+        return canon("error") if df is None else canon(real_result_json(df))
+    except Exception:
+        return canon("error")
+
+
+def real_parts_impl(codec, order, P, data):
+    """line `dir realparts`: every part of the result on its own; a member outside the bitmap model's domain is masked as "error" on
+    both sides, so that the rest of such a movie (AppleGame.dir has one bitmap with horizontal padding -4) is still compared.
+    None when the real call raised (no parts to look at)."""
+    df, outside, _ = _run_real(codec, order, P, data)
+    if df is None:
+        return None
+    r = real_result_json(df)
+    r["cast"] = ["error" if id(e) in outside else j for e, j in zip(df.cast, r["cast"])]
+    return canon(r)
+
+
 def impl(case):
     import drxtract.dir.dir as dd
-    t = case["lines"][0].split()
+    t = case["lines"][0].lstrip("#").split()
+    if t[1] in ("real", "realparts"):
+        out = []
+        for line in case["lines"]:
+            t = line.lstrip("#").split()
+            f = real_impl if t[1] == "real" else real_parts_impl
+            out.append(f(t[2], t[3], int(t[4]), bytes.fromhex("" if t[5] == "-" else t[5])))
+        return out
     order, P, data = t[2], int(t[3]), bytes.fromhex("" if t[4] == "-" else t[4])
     if case["spec"]["mode"] == "stub":
         saved = {k: getattr(dd, k) for k in STUBS}
@@ -528,30 +789,37 @@ def impl(case):
         finally:
             for k, f in saved.items():
                 setattr(dd, k, f)
-    else:
-        try:
-            got = canon(result_json(dd.parse_dir_file_data(order, P, data)))
-        except Exception as e:
-            got = canon("error")
-        return [got]
+    return [canon("bad-op")]
+
+
+class _Obj:
+    def __init__(self, d):
+        self.__dict__.update(d)
 
 
 def oracle(case, io):
     """real mode: the assembled result must equal the composition of the real individual decoders (declarative assembler)"""
-    if case["spec"]["mode"] != "real":
+    if case["spec"]["mode"] != "real" or io[0] is None:
         return None
     m = _spec_movie(case)
+    old = os.environ.get("DRX_ENCODING")
+    _setenc(m.get("codec", "default"))
     try:
-        exp = canon(to_jsonable(assemble_spec(m, real_decoders())))
+        exp = canon(real_result_json(_Obj(assemble_spec(m, real_decoders()))))
     except Exception as e:
-        return None   # an individual decoder rejects one of the harvested chunks in isolation: nothing to compose
+        return None   # an individual decoder rejects one of the chunks in isolation: nothing to compose
+    finally:
+        if old is None:
+            os.environ.pop("DRX_ENCODING", None)
+        else:
+            os.environ["DRX_ENCODING"] = old
     if io[0] != exp:
         return "whole-movie result differs from composing the individual decoders over the designated chunks: expected " + exp[:600] + " got " + io[0][:600]
     return None
 
 
 def nontrivial(case, io):
-    return io[0] != '"error"' and '"cast":[]' not in io[0]
+    return any(x is not None and x != '"error"' and '"cast":[]' not in x for x in io)
 
 
 # ---------------------------------------------------------------------------------------------- known findings
